@@ -23,7 +23,7 @@
    same grid on two real stacks and Trace_P2pNeg requires proj = Proj(Expected(c)).        *)
 EXTENDS Naturals, Sequences, FiniteSets, TLC
 
-CONSTANTS Kinds,         \* sub-grids to enumerate: subset of {"dep", "ml", "opt", "depx", "llcp"}
+CONSTANTS Kinds,         \* sub-grids to enumerate: subset of {"dep", "ml", "opt", "lto", "depx", "llcp"}
           MaxSent        \* frames an obeying sender puts on the link per behaviour (model checking bound)
 
 VARIABLES c,             \* configuration
@@ -38,6 +38,11 @@ Rates == <<"106A", "212F", "424F">>
 Floor10(x) == (x \div 10) * 10
 Mius == <<128, 129, 248, 1024, 2174, 2175>>
 Ltos == <<10, 100, 105, 500, 2550>>
+\* link timeouts at the edges of the LTO TLV encoding (one octet, units of 10 ms; 100 ms is the default and the TLV is
+\* omitted): 0..9 are announced as 0, 19 as 10, 2559 as 2550.  2560 is out of range: the code as it is encodes
+\* (lto div 10) modulo 256, i.e. announces 0; it is in the grid with exactly that meaning (Announced)
+LtosX == <<0, 5, 9, 10, 19, 100, 500, 2550, 2559, 2560>>
+Announced(lto) == 10 * ((lto \div 10) % 256)
 
 \* ------------------------------------------------------------------ the grid
 \* every field of a configuration from one integer (deterministic mixing; only the fields that a
@@ -58,6 +63,7 @@ Size(kind) == CASE kind = "dep" -> 3 * 2 * 2 * 4 * 4 * 15
                 [] kind = "opt" -> 4 * 4 * 2 * 2 * 2 * 2
                 [] kind = "depx" -> 2880 * 16
                 [] kind = "llcp" -> 900 * 256
+                [] kind = "lto" -> 10 * 10
 
 DepPart(m, k) == [m EXCEPT !.brs = k % 3, !.acm = (k \div 3) % 2 = 1, !.disc = IF (k \div 6) % 2 = 1 THEN "F" ELSE "A",
                            !.lri = (k \div 12) % 4, !.lrt = (k \div 48) % 4, !.rwt = (k \div 192) % 15]
@@ -72,6 +78,7 @@ GridCfg(kind, k) ==
       [] kind = "opt" -> OptPart(Mix(k + 2), k)
       [] kind = "depx" -> DepPart(Mix((k \div 2880) * 131 + k + 3), k % 2880)
       [] kind = "llcp" -> OptPart(MlPart(Mix(k + 4), k % 900), k \div 900)
+      [] kind = "lto" -> [Mix(k + 5) EXCEPT !.ltoI = LtosX[(k % 10) + 1], !.ltoT = LtosX[((k \div 10) % 10) + 1]]
 
 InGrid(kind, k, cfg) == kind \in Kinds /\ k \in 0..(Size(kind) - 1) /\ cfg = GridCfg(kind, k)
 
@@ -79,7 +86,7 @@ InGrid(kind, k, cfg) == kind \in Kinds /\ k \in 0..(Size(kind) - 1) /\ cfg = Gri
 ValidCfg(x) ==
     /\ x.brs \in 0..2 /\ x.lri \in 0..3 /\ x.lrt \in 0..3 /\ x.rwt \in 0..14
     /\ x.miuI \in 128..2175 /\ x.miuT \in 128..2175
-    /\ x.ltoI \in 10..2550 /\ x.ltoT \in 10..2550
+    /\ x.ltoI \in 0..2560 /\ x.ltoT \in 0..2560          \* (2560: see LtosX)
     /\ x.lscI \in 0..3 /\ x.lscT \in 0..3
 
 Wks(snep) == 1 + 2 + (IF snep THEN 16 ELSE 0)          \* LLC link management, SDP, (SNEP)
@@ -93,20 +100,20 @@ Expected(x) ==
         psl |-> x.brs > idx0, brty0 |-> Rates[idx0 + 1], brty |-> Rates[idx + 1],
         lrI |-> LR(x.lri), lrT |-> LR(x.lrt), wt |-> x.rwt,
         i |-> [depMiu |-> LR(x.lrt) - 3, sendMiu |-> x.miuT, recvMiu |-> x.miuI,
-               sendLto |-> x.ltoI, recvLto |-> Floor10(x.ltoT), sendWks |-> Wks(x.snepT),
+               sendLto |-> x.ltoI, recvLto |-> Announced(x.ltoT), sendWks |-> Wks(x.snepT),
                sendLsc |-> x.lscT, agf |-> x.agfI],
         t |-> [depMiu |-> LR(x.lri) - 3, sendMiu |-> x.miuI, recvMiu |-> x.miuT,
-               sendLto |-> x.ltoT, recvLto |-> Floor10(x.ltoI), sendWks |-> Wks(x.snepI),
+               sendLto |-> x.ltoT, recvLto |-> Announced(x.ltoI), sendWks |-> Wks(x.snepI),
                sendLsc |-> x.lscI, agf |-> x.agfT]]
 
 \* each side's sending limit equals the other's announced receiving limit
 Symmetric(e) ==
     /\ e.i.sendMiu = e.t.recvMiu /\ e.t.sendMiu = e.i.recvMiu
-    /\ e.i.recvLto = Floor10(e.t.sendLto) /\ e.t.recvLto = Floor10(e.i.sendLto)
+    /\ e.i.recvLto = Announced(e.t.sendLto) /\ e.t.recvLto = Announced(e.i.sendLto)
     /\ e.i.depMiu + 3 = e.lrT /\ e.t.depMiu + 3 = e.lrI
 WithinRanges(e) ==
     /\ e.i.sendMiu \in 128..2175 /\ e.t.sendMiu \in 128..2175
-    /\ e.i.recvLto \in 10..2550 /\ e.t.recvLto \in 10..2550 /\ e.i.recvLto % 10 = 0 /\ e.t.recvLto % 10 = 0
+    /\ e.i.recvLto \in 0..2550 /\ e.t.recvLto \in 0..2550 /\ e.i.recvLto % 10 = 0 /\ e.t.recvLto % 10 = 0
     /\ e.i.depMiu \in {61, 125, 189, 251} /\ e.t.depMiu \in {61, 125, 189, 251}
     /\ e.wt \in 0..14
     /\ e.i.sendWks % 2 = 1 /\ e.t.sendWks % 2 = 1
@@ -169,8 +176,9 @@ ExpWait(x, side) ==
     LET e == Expected(x) IN
     IF side = "T" THEN (e.t.recvLto + 10) * 13560
     ELSE IF 4096 * Pow2(e.wt) <= (e.i.recvLto + 10) * 13560 THEN 4096 * Pow2(e.wt) ELSE (e.i.recvLto + 10) * 13560
-\* the link timeout a side announced bounds its own turn-around time (carrier cycles)
-ExpTurn(x, side) == 13560 * (IF side = "I" THEN x.ltoI ELSE x.ltoT)
+\* the link timeout a side announced (plus the 10 ms the receiver grants on top) bounds its own turn-around time
+\* (carrier cycles)
+ExpTurn(x, side) == 13560 * (Announced(IF side = "I" THEN x.ltoI ELSE x.ltoT) + 10)
 
 Next == \/ Activate
         \/ \E side \in {"I", "T"} : \E m \in {128, LinkMiu(c, IF side = "I" THEN "TI" ELSE "IT")} : Announce(side, 32, m)
